@@ -136,7 +136,9 @@ class RangeNode(OperandNode):
 
     @property
     def address(self):
-        return self.tvalue
+        # `$` only matters when a formula is copied; it is not part of the
+        # address of the cell that is referred to.
+        return self.tvalue.replace('$', '')
 
     def full_address(self, context):
         addr = self.address
